@@ -1280,7 +1280,18 @@ func (r *pilosaRoaringIterator) Next() (key uint64, cType byte, n int, length in
 	// a run container keeps its data after an initial 2 byte length header
 	var runCount uint16
 	if r.currentType == containerRun {
+		if int64(r.currentDataOffset)+runCountHeaderSize > int64(len(r.data)) {
+			r.Done(fmt.Errorf("container %d/%d, key %d, had offset %d for its run count, maximum %d",
+				r.currentIdx, r.keys, r.currentKey, r.currentDataOffset, len(r.data)))
+			return r.Current()
+		}
 		runCount = binary.LittleEndian.Uint16(r.data[r.currentDataOffset : r.currentDataOffset+runCountHeaderSize])
+		if runCount == 0 {
+			// every stored container holds at least one value
+			r.Done(fmt.Errorf("container %d/%d, key %d, is a run container without runs",
+				r.currentIdx, r.keys, r.currentKey))
+			return r.Current()
+		}
 		r.currentDataOffset += 2
 	}
 	if r.currentDataOffset > uint32(len(r.data)) || r.currentDataOffset < headerBaseSize {
@@ -1288,7 +1299,6 @@ func (r *pilosaRoaringIterator) Next() (key uint64, cType byte, n int, length in
 			r.currentIdx, r.keys, r.currentKey, r.currentDataOffset, len(r.data)))
 		return r.Current()
 	}
-	r.currentPointer = (*uint16)(unsafe.Pointer(&r.data[r.currentDataOffset]))
 	var size int
 	switch r.currentType {
 	case containerArray:
@@ -1310,6 +1320,11 @@ func (r *pilosaRoaringIterator) Next() (key uint64, cType byte, n int, length in
 		r.Done(fmt.Errorf("container %d/%d, key %d, had offset %d+%d size, maximum %d",
 			r.currentIdx, r.keys, r.currentKey, r.currentDataOffset, size, len(r.data)))
 		return r.Current()
+	}
+	// Only now is the payload known to lie inside the data.
+	r.currentPointer = nil
+	if size > 0 {
+		r.currentPointer = (*uint16)(unsafe.Pointer(&r.data[r.currentDataOffset]))
 	}
 	r.lastErr = nil
 	return r.Current()
@@ -1338,7 +1353,18 @@ func (r *officialRoaringIterator) Next() (key uint64, cType byte, n int, length 
 	// a run container keeps its data after an initial 2 byte length header
 	var runCount uint16
 	if r.currentType == containerRun {
+		if int64(r.currentDataOffset)+runCountHeaderSize > int64(len(r.data)) {
+			r.Done(fmt.Errorf("container %d/%d, key %d, had offset %d for its run count, maximum %d",
+				r.currentIdx, r.keys, r.currentKey, r.currentDataOffset, len(r.data)))
+			return r.Current()
+		}
 		runCount = binary.LittleEndian.Uint16(r.data[r.currentDataOffset : r.currentDataOffset+runCountHeaderSize])
+		if runCount == 0 {
+			// every stored container holds at least one value
+			r.Done(fmt.Errorf("container %d/%d, key %d, is a run container without runs",
+				r.currentIdx, r.keys, r.currentKey))
+			return r.Current()
+		}
 		r.currentDataOffset += 2
 	}
 	if r.currentDataOffset > uint32(len(r.data)) || r.currentDataOffset < headerBaseSize {
@@ -1346,7 +1372,6 @@ func (r *officialRoaringIterator) Next() (key uint64, cType byte, n int, length 
 			r.currentIdx, r.keys, r.currentKey, r.currentDataOffset, len(r.data)))
 		return r.Current()
 	}
-	r.currentPointer = (*uint16)(unsafe.Pointer(&r.data[r.currentDataOffset]))
 	var size int
 	switch r.currentType {
 	case containerArray:
@@ -1356,6 +1381,20 @@ func (r *officialRoaringIterator) Next() (key uint64, cType byte, n int, length 
 		r.currentLen = 1024
 		size = 8192
 	case containerRun:
+		r.currentLen = int(runCount)
+		size = r.currentLen * 4
+	}
+	if int64(r.currentDataOffset)+int64(size) > int64(len(r.data)) {
+		r.Done(fmt.Errorf("container %d/%d, key %d, had offset %d+%d size, maximum %d",
+			r.currentIdx, r.keys, r.currentKey, r.currentDataOffset, size, len(r.data)))
+		return r.Current()
+	}
+	// Only now is the payload known to lie inside the data.
+	r.currentPointer = nil
+	if size > 0 {
+		r.currentPointer = (*uint16)(unsafe.Pointer(&r.data[r.currentDataOffset]))
+	}
+	if r.currentType == containerRun && runCount > 0 {
 		// official format stores runs as start/len, we want to convert, but since
 		// they might be mmapped, we can't write to that memory
 		newRuns := make([]interval16, runCount)
@@ -1365,13 +1404,6 @@ func (r *officialRoaringIterator) Next() (key uint64, cType byte, n int, length 
 			newRuns[i].last += newRuns[i].start
 		}
 		r.currentPointer = (*uint16)(unsafe.Pointer(&newRuns[0]))
-		r.currentLen = int(runCount)
-		size = r.currentLen * 4
-	}
-	if int64(r.currentDataOffset)+int64(size) > int64(len(r.data)) {
-		r.Done(fmt.Errorf("container %d/%d, key %d, had offset %d+%d size, maximum %d",
-			r.currentIdx, r.keys, r.currentKey, r.currentDataOffset, size, len(r.data)))
-		return r.Current()
 	}
 	r.currentDataOffset += uint32(size)
 	r.lastErr = nil
@@ -1594,9 +1626,14 @@ func (b *Bitmap) unmarshalPilosaRoaring(data []byte) error {
 	b.Containers.ResetN(int(keyN))
 	// Descriptive header section: Read container keys and cardinalities.
 	for i, buf := 0, data[headerSize:]; i < int(keyN); i, buf = i+1, buf[12:] {
+		typ := binary.LittleEndian.Uint16(buf[8:10])
+		// The type comes from the input; nothing else may be given a container.
+		if typ != uint16(containerArray) && typ != uint16(containerBitmap) && typ != uint16(containerRun) {
+			return fmt.Errorf("unknown container type %d", typ)
+		}
 		b.Containers.PutContainerValues(
 			binary.LittleEndian.Uint64(buf[0:8]),
-			byte(binary.LittleEndian.Uint16(buf[8:10])),
+			byte(typ),
 			int(binary.LittleEndian.Uint16(buf[10:12]))+1,
 			true)
 	}
@@ -1618,15 +1655,33 @@ func (b *Bitmap) unmarshalPilosaRoaring(data []byte) error {
 		if c == nil {
 			continue
 		}
+		// The payload must lie inside the data: the slices made below are
+		// not bounds checked.
 		switch c.typ() {
 		case containerRun:
+			if int64(offset)+runCountHeaderSize > int64(len(data)) {
+				return fmt.Errorf("run count out of bounds: off=%d, len=%d", offset, len(data))
+			}
 			runCount := binary.LittleEndian.Uint16(data[offset : offset+runCountHeaderSize])
+			if int64(offset)+runCountHeaderSize+int64(runCount)*interval16Size > int64(len(data)) {
+				return fmt.Errorf("run container out of bounds: off=%d, runs=%d, len=%d", offset, runCount, len(data))
+			}
+			if runCount == 0 {
+				// every stored container holds at least one value
+				return fmt.Errorf("run container without runs: off=%d", offset)
+			}
 			c.setRuns((*[0xFFFFFFF]interval16)(unsafe.Pointer(&data[offset+runCountHeaderSize]))[:runCount:runCount])
 			opsOffset = int(offset) + runCountHeaderSize + len(c.runs())*interval16Size
 		case containerArray:
+			if int64(offset)+int64(c.N())*2 > int64(len(data)) {
+				return fmt.Errorf("array container out of bounds: off=%d, n=%d, len=%d", offset, c.N(), len(data))
+			}
 			c.setArray((*[0xFFFFFFF]uint16)(unsafe.Pointer(&data[offset]))[:c.N():c.N()])
 			opsOffset = int(offset) + len(c.array())*2 // sizeof(uint32)
 		case containerBitmap:
+			if int64(offset)+bitmapN*8 > int64(len(data)) {
+				return fmt.Errorf("bitmap container out of bounds: off=%d, len=%d", offset, len(data))
+			}
 			c.setBitmap((*[0xFFFFFFF]uint64)(unsafe.Pointer(&data[offset]))[:bitmapN:bitmapN])
 			opsOffset = int(offset) + len(c.bitmap())*8 // sizeof(uint64)
 		default:
@@ -5228,8 +5283,14 @@ func readOffsets(b *Bitmap, data []byte, pos int, keyN uint32) error {
 		_, c := citer.Value()
 		switch c.typ() {
 		case containerArray:
+			if int64(offset)+int64(c.N())*2 > int64(len(data)) {
+				return fmt.Errorf("array container out of bounds: off=%d, n=%d, len=%d", offset, c.N(), len(data))
+			}
 			c.setArray((*[0xFFFFFFF]uint16)(unsafe.Pointer(&data[offset]))[:c.N():c.N()])
 		case containerBitmap:
+			if int64(offset)+bitmapN*8 > int64(len(data)) {
+				return fmt.Errorf("bitmap container out of bounds: off=%d, len=%d", offset, len(data))
+			}
 			c.setBitmap((*[0xFFFFFFF]uint64)(unsafe.Pointer(&data[offset]))[:bitmapN:bitmapN])
 		default:
 			return fmt.Errorf("unsupported container type %d", c.typ())
@@ -5248,12 +5309,19 @@ func readWithRuns(b *Bitmap, data []byte, pos int, keyN uint32) error {
 		_, c := citer.Value()
 		switch c.typ() {
 		case containerRun:
+			if pos < 0 || len(data) < pos+runCountHeaderSize {
+				return fmt.Errorf("run count incomplete: off=%d, len=%d", pos, len(data))
+			}
 			runCount := binary.LittleEndian.Uint16(data[pos : pos+runCountHeaderSize])
 			// The official format stores runs as start:length and we need
 			// start:end. Convert a copy: the input belongs to the caller (and
 			// may be a read-only mapping), so it must not be written to.
 			if len(data) < pos+runCountHeaderSize+int(runCount)*interval16Size {
 				return fmt.Errorf("run container incomplete: len=%d", len(data))
+			}
+			if runCount == 0 {
+				// every stored container holds at least one value
+				return fmt.Errorf("run container without runs: off=%d", pos)
 			}
 			runs := make([]interval16, runCount)
 			copy(runs, (*[0xFFFFFFF]interval16)(unsafe.Pointer(&data[pos+runCountHeaderSize]))[:runCount:runCount])
@@ -5262,11 +5330,17 @@ func readWithRuns(b *Bitmap, data []byte, pos int, keyN uint32) error {
 			}
 			c.setRuns(runs)
 			c.setMapped(false)
-			pos += int((runCount * interval16Size) + runCountHeaderSize)
+			pos += int(runCount)*interval16Size + runCountHeaderSize
 		case containerArray:
+			if pos < 0 || int64(pos)+int64(c.N())*2 > int64(len(data)) {
+				return fmt.Errorf("array container out of bounds: off=%d, n=%d, len=%d", pos, c.N(), len(data))
+			}
 			c.setArray((*[0xFFFFFFF]uint16)(unsafe.Pointer(&data[pos]))[:c.N():c.N()])
 			pos += int(c.N() * 2)
 		case containerBitmap:
+			if pos < 0 || int64(pos)+bitmapN*8 > int64(len(data)) {
+				return fmt.Errorf("bitmap container out of bounds: off=%d, len=%d", pos, len(data))
+			}
 			c.setBitmap((*[0xFFFFFFF]uint64)(unsafe.Pointer(&data[pos]))[:bitmapN:bitmapN])
 			pos += bitmapN * 8
 		}
